@@ -12,7 +12,7 @@ R6  core::lt/leq/eq/geq/gt route to the namesake builders of the theory selected
 """
 from ..expr import LocalEnv, canon, show
 from ..facts import AnalysisBroken, short, src, walk
-from ..tables import enum_paths, path_values, resolve_values
+from ..tables import enum_paths, path_values, resolve_values, split_values, subst_terms
 from .. import dual
 
 LRA = 'smt::lra_theory::'
@@ -297,7 +297,8 @@ def r6(ctx, fs, rid='C11.R6'):
                 continue
             conds = [(canon(c[1], env, subst=False), c[2]) for c in p.conds if c[0] == 'if']
             # the returned expression with the locals of this path resolved (a literal chosen in the arms of an if and returned after it)
-            rt = resolve_values(canon(p.endnode['c'][0], env, subst=False), path_values(p, lambda n: canon(n, env, subst=False)))
+            cnp = lambda n: canon(n, env, subst=False)
+            rt = resolve_values(subst_terms(cnp(p.endnode['c'][0]), split_values(p, cnp)), path_values(p, cnp))
             calls = [x for x in _subterms(rt) if isinstance(x, tuple) and x[0] == 'mcall' and '_theory::new_' in str(x[1])]
             tp = None
             for ct, pol in conds:
